@@ -377,11 +377,40 @@ def _w_grp_edit(self, op):
         self.st.count("op.skipped")
         return core.Outcome(True, "skipped")
     how = op["how"]
+    adding = how in ("add", "append", "prepend")
+    special = None
+    if op.get("raw") == "from_group" and adding:
+        # the very object another connected group holds as an item
+        others = [x for x in self.gfa.paths if x is not l and x.record_type == "O" and x.items]
+        if not others:
+            self.st.count("op.skipped")
+            return core.Outcome(True, "skipped")
+        special = others[0].items[len(op["item"]) % len(others[0].items)]
+        if l.record_type == "U":
+            special = special.line
+        self.st.count("probe.item_object_of_another_group")
+    elif op.get("raw") == "foreign_line" and adding:
+        # a line that belongs to another Gfa
+        g2 = gfapy.Gfa(version="gfa2")
+        g2.add_line("S\tzf9\t5\t*")
+        special = gfapy.OrientedLine(g2.segment("zf9"), "+") if l.record_type == "O" else g2.segment("zf9")
+        self.foreign_gfa = g2
+        self.st.count("probe.item_line_of_another_gfa")
     if l.record_type == "U":
-        if how in ("add", "append", "prepend"):
+        if adding:
+            if special is not None:
+                return core.call(l.add_item, special)
             return core.call(l.add_item, op["item"].rstrip("+-") if op["item"][-1:] in "+-" and len(op["item"]) > 1 else op["item"])
         return core.call(l.rm_item, op["item"].rstrip("+-") if op["item"][-1:] in "+-" and len(op["item"]) > 1 else op["item"])
     item = op["item"] if op["item"][-1:] in "+-" else op["item"] + "+"
+    if special is not None:
+        item = special
+    elif op.get("raw") == "str":
+        item = op["item"]
+    elif op.get("raw") == "oline?":
+        item = gfapy.OrientedLine(op["item"], "?")
+    elif op.get("raw") == "list":
+        item = [op["item"], "x"]
     if how in ("add", "append"):
         return core.call(l.append_item, item)
     if how == "prepend":
@@ -389,6 +418,34 @@ def _w_grp_edit(self, op):
     if how == "rm_first":
         return core.call(l.rm_first_item)
     return core.call(l.rm_last_item)
+
+
+def _w_rm_other_group(self, op):
+    """removal of the ordered group whose item object a grp_edit handed to the group op['id']"""
+    l = self.gfa.line(op["id"])
+    others = [x for x in self.gfa.paths if x is not l and x.record_type == "O" and x.items]
+    if l is None or not others:
+        self.st.count("op.skipped")
+        return core.Outcome(True, "skipped")
+    out = core.call(self.gfa.rm, others[0])
+    if out.ok:
+        self.removed.append(others[0])
+    return out
+
+
+def _w_standalone_takes_item(self, op):
+    """a stand-alone ordered group (a path under construction) is given the item object a connected group holds"""
+    others = [x for x in self.gfa.paths if x.record_type == "O" and x.items]
+    if not others:
+        self.st.count("op.skipped")
+        return core.Outcome(True, "skipped")
+    src = others[op.get("i", 0) % len(others)]
+    item = src.items[op.get("j", 0) % len(src.items)]
+    o = core.call(gfapy.Line, "O\tzo9\t%s" % str(src.items[0]), version="gfa2", vlevel=self.gfa.vlevel)
+    if not o.ok:
+        return core.Outcome(True, "skipped")
+    self.st.count("probe.standalone_group_takes_item")
+    return core.call(o.value.prepend_item if op.get("how") == "prepend" else o.value.append_item, item)
 
 
 def _w_add_many(self, op):
@@ -401,6 +458,8 @@ def _w_add_many(self, op):
 
 
 World.do_add_many = _w_add_many
+World.do_rm_other_group = _w_rm_other_group
+World.do_standalone_takes_item = _w_standalone_takes_item
 World.do_grp_edit = _w_grp_edit
 World.do_hold = _w_hold
 World.do_held_call = _w_held_call
